@@ -650,7 +650,7 @@ class Engine:
         rep = self.rep
         for label, val, ln in self.invariant_terms(b, p):
             ok, why = self.prove_invariant(cx, val, ln)
-            shape = re.sub(r'#[0-9.]+', '', '%s: val=%s len=%s' % (label, show(val), show(ln)))
+            shape = re.sub(r'#\d+\.\d+', '', '%s: val=%s len=%s' % (label, show(val), show(ln)))
             inst = '%s|O2 %s' % (b.defp, shape)
             if ok:
                 if inst not in done:
